@@ -123,7 +123,7 @@ class DbEngine(BaseEngine):
         for part in (rs.group(1).split(' ;; ') if rs and rs.group(1) else []):
             k, _, v = part.partition('=')
             resp[k] = v
-        fin = re.search(r' final=ids=(\S*)', out)
+        fin = re.search(r' final=(?:.*? \| )?ids=(\S*)', out)
         return resp, (fin.group(1).split(',') if fin and fin.group(1) else [])
 
     def race_precheck(self, out):
@@ -187,8 +187,9 @@ class DbEngine(BaseEngine):
         return 0 if (v.oracle_ok and v.corr_ok) else 1
 
     @staticmethod
-    def race_line(sub, g, setup, progs, obs_ids):
-        obs = 'obs %s L0' % C.tl([C.tb(i) for i in obs_ids])
+    def race_line(sub, g, setup, progs, obs_ids, after=()):
+        """[after]: operations executed one after the other once every thread has returned, before the final observation"""
+        obs = ''.join(o + ' ; ' for o in after) + 'obs %s L0' % C.tl([C.tb(i) for i in obs_ids])
         names = C.tl(C.tb(n) for n in g.names)
         return 'conc %s %s %s ; S %s%s ; F ; %s' % (names, C.tn(sub.getrandbits(40)), C.tn(sub.choice([50, 150, 300, 600])),
                                                    ''.join(' ; ' + o for o in setup), ''.join(' ; T' + ''.join(' ; ' + o for o in p) for p in progs), obs)
